@@ -1692,6 +1692,13 @@ func c13Linked(p *core.Program, r *core.Report, t *types.Named, rule string) {
 						out = append(out, paths.Event{Kind: "SIZE", Arg: "=0", Pos: v.Pos()})
 					case strings.HasSuffix(ls, ".next") || strings.HasSuffix(ls, ".prev"):
 						out = append(out, paths.Event{Kind: "LINKSET", Arg: ls + "=" + rs, Pos: v.Pos()})
+					default:
+						// where a local node comes from on this path (a literal, or a node kept from earlier)
+						if id, ok := l.(*ast.Ident); ok && i < len(v.Rhs) {
+							if _, isPtr := fi.Pkg.TypesInfo.TypeOf(id).(*types.Pointer); isPtr {
+								out = append(out, paths.Event{Kind: "NODEDEF", Arg: id.Name + "=" + rs, Pos: v.Pos()})
+							}
+						}
 					}
 				}
 			case *ast.IncDecStmt:
@@ -1849,6 +1856,17 @@ func c13Linked(p *core.Program, r *core.Report, t *types.Named, rule string) {
 				// a node without a predecessor becomes the first, one without a successor the last; a
 				// neighbour that exists is pointed at the node
 				nb := fresh[nodeName]
+				// on this path the node may not be the literal at all but a node kept from earlier
+				// (a free list): what its links hold is then whatever they held
+				reused := false
+				for _, e := range pa {
+					if e.Kind == "NODEDEF" && strings.HasPrefix(e.Arg, nodeName+"=") {
+						reused = !strings.HasPrefix(strings.TrimPrefix(e.Arg, nodeName+"="), "&")
+					}
+				}
+				if reused {
+					nb = [2]string{"?", "?"}
+				}
 				// neighbours given to the node after it was built (n := &Entity{Value: v}; n.next = first)
 				for _, e := range pa {
 					if e.Kind != "LINKSET" {
@@ -1859,6 +1877,14 @@ func c13Linked(p *core.Program, r *core.Report, t *types.Named, rule string) {
 					}
 					if strings.HasPrefix(e.Arg, nodeName+".next=") {
 						nb[1] = strings.TrimPrefix(e.Arg, nodeName+".next=")
+					}
+				}
+				if reused {
+					if setLast == nodeName && nb[1] == "?" {
+						probs = append(probs, "a node taken from earlier use becomes the last node while its `next` still holds what it held: the list runs on into nodes that are not part of it")
+					}
+					if setFirst == nodeName && nb[0] == "?" {
+						probs = append(probs, "a node taken from earlier use becomes the first node while its `prev` still holds what it held")
 					}
 				}
 				for side, want := range [2]string{setFirst, setLast} {
